@@ -49,8 +49,11 @@ func (p Precompile) DepositOrWithdraw(
 		return nil, err
 	}
 
+	// the asset update and the oracle's validator-list update are applied in one cache context, so that a
+	// failure of the second step (reported as success=false by Run) doesn't leave the deposit or withdrawal booked.
+	cc, writeFunc := ctx.CacheContext()
 	// call assets keeper to perform the deposit or withdraw action
-	err = p.assetsKeeper.PerformDepositOrWithdraw(ctx, depositWithdrawParams)
+	err = p.assetsKeeper.PerformDepositOrWithdraw(cc, depositWithdrawParams)
 	if err != nil {
 		return nil, err
 	}
@@ -64,7 +67,7 @@ func (p Precompile) DepositOrWithdraw(
 		}
 		_, assetID := assetstypes.GetStakerIDAndAssetID(depositWithdrawParams.ClientChainLzID,
 			depositWithdrawParams.StakerAddress, depositWithdrawParams.AssetsAddress)
-		err = p.assetsKeeper.UpdateNSTValidatorListForStaker(ctx, assetID,
+		err = p.assetsKeeper.UpdateNSTValidatorListForStaker(cc, assetID,
 			hexutil.Encode(depositWithdrawParams.StakerAddress),
 			hexutil.Encode(depositWithdrawParams.ValidatorPubkey),
 			opAmount)
@@ -72,6 +75,7 @@ func (p Precompile) DepositOrWithdraw(
 			return nil, err
 		}
 	}
+	writeFunc()
 
 	// get the latest asset state of staker to return.
 	stakerID, assetID := assetstypes.GetStakerIDAndAssetID(depositWithdrawParams.ClientChainLzID, depositWithdrawParams.StakerAddress, depositWithdrawParams.AssetsAddress)
